@@ -4,7 +4,7 @@ import sys
 import time
 
 EFF = {"pa": "print('a')", "pae": "print('a', end='')", "pn": "print()", "pas": "print('a ')",
-       "pab": "print('a', 'b', sep='\\t')", "w": "sys.stdout.write('b')", "sp": "print('  ')",
+       "pab": "print('a', 'b', sep='\\t')", "w": "sys.stdout.write('b')", "wl": "sys.stdout.writelines(x for x in ['b\\n', 'a\\n'])", "sp": "print('  ')",
        "pnn": "print('\\n')", "in": "v = input('p')", "ina": "v = ask('p')", "st": "sys.settrace(None)",
        "im": "import helper_mod", "cb": "hook()",
        "wsv": "saved_out.write('c')", "pcr": "print('a', end='\\r')", "pcrb": "print('a\\rb')",
@@ -162,6 +162,11 @@ class Harness:
                                              main_file="answer.py", main_code=self.src))
         self.sandbox = self.report["sandbox"]["sandbox"]
         self.sandbox.allowed_time = 5
+        # the "real console" that run(real_io=True) echoes to (pedal remembers sys.stdout at import time)
+        import io as _io
+        from pedal.sandbox import mocked as _mocked
+        self.console = _io.StringIO()
+        _mocked.PrintingStringIO._ORIGINAL_STDOUT = self.console
         self.threaded = bool(file.get("threaded", False))
         # nested imports of student files consult the sandbox's own flag, not the per-call argument
         self.sandbox.threaded = self.threaded
@@ -206,7 +211,10 @@ class Harness:
         err = None
         self.fault_injection(True)
         try:
-            if op == "run":
+            if op == "run_real":
+                prog = self.file["top"]
+                self.sandbox.run(real_io=True)
+            elif op == "run":
                 prog = self.file["top"]
                 C.run(report=r, threaded=self.threaded)
             elif op == "call":
@@ -264,7 +272,7 @@ class Harness:
                 self.fbs.append({"exec": len(sb._context) - (list(prog["effs"]).count("cb") if prog and prog["mode"] not in ("syntax", "nul") else 0),
                                  "mode": mode})
                 if prog and prog["mode"] in STUDENT_LINE:
-                    want = self.where["top" if a["op"] in ("run", "run_in") else a["i"]]
+                    want = self.where["top" if a["op"] in ("run", "run_in", "run_real") else a["i"]]
                     got = f.location.line if f.location is not None else None
                     lineinfo.append({"want": want, "got": got})
         ex = sb.exception
@@ -344,8 +352,8 @@ def replay_one(rec):
             proj = h.do(a)
             exp = st["s"]
             mode = "-"
-            if a["op"] in ("run", "call", "evaluate", "run_in", "call_in"):
-                mode = (h.file["top"] if a["op"] in ("run", "run_in") else h.file["fns"][a["i"] - 1])["mode"]
+            if a["op"] in ("run", "call", "evaluate", "run_in", "call_in", "run_real"):
+                mode = (h.file["top"] if a["op"] in ("run", "run_in", "run_real") else h.file["fns"][a["i"] - 1])["mode"]
             if mode == "recursion":
                 # CPython itself drops a Python-level trace function that overflows the stack: not observable
                 proj["pTrace"] = exp["pTrace"]
